@@ -19,7 +19,8 @@ RULE = ('rectangular geometry recipes (gens/geo.py): nx, ny in 1..12 (not both 1
         't2grid().fromgeo(result, blockmap) equals the grid given to rectgeo by block name: volumes, connected pairs, area, '
         'per-block distances, permeability direction, oriented gravity cosine. '
         'Non-trivial = single block along x or y, or rotated, or non-flat surface, or output convention different from the '
-        'source, or file round trip; distinct = case JSON.')
+        'source, or file round trip; distinct = case JSON.'
+        " The original grid's signature is taken before rectgeo is called.")
 ASSUMPTIONS = ['the rotation of the source geometry is represented by rotate(theta) and permeability_angle = -theta, so that '
                'permeability directions 1 and 2 follow the grid axes (otherwise the grid alone does not determine the axes)',
                'at least one column reaches the top of the top layer (layers without any block leave no trace in the grid)',
@@ -205,14 +206,15 @@ def recipe(case, with_file):
 
 def grid_signature(grid, skip=()):
     """by name: volumes; unordered pair -> area, direction, per-block distance, cosine for the orientation min(name) -> max(name)"""
-    blocks = dict((b.name, float(b.volume)) for b in grid.blocklist if b.name not in skip)
+    num = lambda v: float('nan') if v is None else float(v)        # (a missing number never equals anything: reported by the comparison)
+    blocks = dict((b.name, num(b.volume)) for b in grid.blocklist if b.name not in skip)
     cons = {}
     for c in grid.connectionlist:
         a, b = c.block[0].name, c.block[1].name
         if a in skip or b in skip: continue
         cs = None if c.dircos is None else (float(c.dircos) if a <= b else -float(c.dircos))
-        cons[frozenset((a, b))] = {'area': float(c.area), 'direction': c.direction,
-                                   'dist': {a: float(c.distance[0]), b: float(c.distance[1])}, 'cos': cs}
+        cons[frozenset((a, b))] = {'area': num(c.area), 'direction': c.direction,
+                                   'dist': {a: num(c.distance[0]), b: num(c.distance[1])}, 'cos': cs}
     return blocks, cons
 
 
